@@ -27,6 +27,7 @@ func runC06(c *Ctx, r *Report) {
 	c06R5(c, r, "C06.R5")
 	c01R1(c, r, "C06.R6")
 	c06R7(c, r, "C06.R7")
+	c06R10(c, r, "C06.R10")
 	c02R1(c, r, "C06.R8")     // the combinators hand a "need more data" answer up unchanged (it is never overwritten by a later set's "no")
 	c02Router(c, r, "C06.R9") // the router never acts on a verdict that is stale for the stream as it is now (fragmented == whole delivery)
 }
@@ -273,6 +274,10 @@ func findReadingCalls(fn *ssa.Function) []readingCall {
 		if !tainted {
 			continue
 		}
+		// a module function that only looks at the connection's addresses / variables does not read the stream
+		if cal := call.Call.StaticCallee(); cal != nil && cal.Pkg != nil && strings.HasPrefix(cal.Pkg.Pkg.Path(), modPath) && len(cal.Blocks) > 0 && !mayReadStream(cal, map[*ssa.Function]bool{}) {
+			continue
+		}
 		var errV ssa.Value
 		if res.Len() == 1 {
 			errV = call
@@ -419,7 +424,7 @@ func c06R3(c *Ctx, r *Report, rule string) {
 					}
 					okd := false
 					for a := range al {
-						if derivesFrom(last, a) {
+						if derivesFromAvoiding(last, a, losesErrorIdentity) {
 							okd = true
 							break
 						}
@@ -492,6 +497,46 @@ func c06R4(c *Ctx, r *Report, rule string) {
 			}
 			visit(call, 0)
 			r.check(bad == "", rule, name, "view read-only", c.ipos(ci), "no write through the view", "the matching buffer is modified through MatchingBytes(): "+bad)
+			// the view is a snapshot: a reader over it ends with io.EOF where the connection would say "need more".
+			// No error coming out of a read from such a reader may become the matcher's answer.
+			eofAsAnswer := ""
+			for _, ci2 := range callsIn(fn) {
+				call2, ok := ci2.(*ssa.Call)
+				if !ok || call2 == call {
+					continue
+				}
+				sig := call2.Call.Signature()
+				if sig.Results().Len() == 0 || !isErrorType(sig.Results().At(sig.Results().Len()-1).Type()) {
+					continue
+				}
+				fromView := false
+				for _, a := range call2.Call.Args {
+					if hasReadMethod(a.Type()) && derivesFromAvoiding(a, call, func(v ssa.Value) bool {
+						// the size of the snapshot is not its content
+						cl, ok := v.(*ssa.Call)
+						return ok && (calleeID(cl) == "builtin len" || calleeID(cl) == "builtin cap")
+					}) {
+						fromView = true
+					}
+				}
+				if !fromView {
+					continue
+				}
+				var errV ssa.Value = call2
+				if sig.Results().Len() > 1 {
+					if e := extractOf(call2, sig.Results().Len()-1); e != nil {
+						errV = e
+					} else {
+						continue
+					}
+				}
+				for _, ret := range returnsOf(fn) {
+					if n := len(ret.Results); n > 0 && derivesFrom(ret.Results[n-1], errV) {
+						eofAsAnswer = calleeID(call2) + " at " + c.ipos(call2)
+					}
+				}
+			}
+			r.check(eofAsAnswer == "", rule, name, "view not parsed as the stream", c.ipos(ci), "errors of reads over the snapshot are not returned", "the matcher parses a reader built over the MatchingBytes() snapshot ("+eofAsAnswer+") and returns its error: at the end of the buffered bytes that is io.EOF/ErrUnexpectedEOF, not ErrConsumedAllPrefetchedBytes - the router treats it as a matcher failure and drops the connection instead of waiting for the rest of the message")
 		}
 	}
 	// http need-more answer
@@ -568,5 +613,112 @@ func c06R5(c *Ctx, r *Report, rule string) {
 	}
 	if bad == 0 {
 		r.ok(rule, "module", "matchers leave the connection alone", "-", fmt.Sprintf("%d matcher-reachable functions scanned", len(mreach)))
+	}
+}
+
+// losesErrorIdentity: a value built from an error in a way that errors.Is can no longer see through -
+// fmt.Errorf without %w, errors.New / formatting of its text. The router recognises "need more data" with
+// errors.Is, so such a value turns need-more into a hard matcher error (the connection is dropped).
+func losesErrorIdentity(v ssa.Value) bool {
+	call, ok := v.(*ssa.Call)
+	if !ok {
+		return false
+	}
+	switch id := calleeID(call); {
+	case id == "fmt.Errorf":
+		if f, isC := constString(call.Call.Args[0]); isC {
+			return !strings.Contains(f, "%w")
+		}
+		return true
+	case id == "errors.New", id == "fmt.Sprintf", id == "fmt.Sprint":
+		return true
+	case call.Call.IsInvoke() && call.Call.Method.Name() == "Error":
+		return true
+	}
+	return false
+}
+
+// mayReadStream: fn (or a module function it calls) calls something outside the module - or Connection.Read /
+// prefetch - with a reader-like argument, or dispatches dynamically with one. Accessors are not reads.
+func mayReadStream(fn *ssa.Function, seen map[*ssa.Function]bool) bool {
+	if seen[fn] {
+		return false
+	}
+	seen[fn] = true
+	nm := fname(fn)
+	if nm == "layer4.(*Connection).Read" || nm == "layer4.(*Connection).prefetch" {
+		return true
+	}
+	for _, ci := range callsIn(fn) {
+		cc := ci.Common()
+		name := ""
+		if cc.IsInvoke() {
+			name = cc.Method.Name()
+		} else if cal := cc.StaticCallee(); cal != nil {
+			name = cal.Name()
+		}
+		switch name {
+		case "RemoteAddr", "LocalAddr", "SetReadDeadline", "SetDeadline", "SetWriteDeadline", "Close", "Write", "GetVar", "SetVar", "Value", "String", "Network":
+			continue
+		}
+		readerArg := false
+		var ops []ssa.Value
+		if cc.IsInvoke() {
+			ops = append(ops, cc.Value)
+		}
+		ops = append(ops, cc.Args...)
+		for _, a := range ops {
+			if hasReadMethod(a.Type()) || isConnPtr(a.Type()) {
+				readerArg = true
+			}
+		}
+		if !readerArg {
+			continue
+		}
+		cal := cc.StaticCallee()
+		if cal != nil && cal.Pkg != nil && strings.HasPrefix(cal.Pkg.Pkg.Path(), modPath) && len(cal.Blocks) > 0 {
+			if mayReadStream(cal, seen) {
+				return true
+			}
+			continue
+		}
+		return true
+	}
+	return false
+}
+
+// c06R10: a plain Read may deliver fewer bytes than the buffer holds without an error (the first TCP segment
+// carried less). A matcher that calls Read directly must therefore look at the count; otherwise it decides on a
+// half-filled buffer - a definite verdict on a proper prefix instead of "need more".
+func c06R10(c *Ctx, r *Report, rule string) {
+	r.rule(rule, "every call in matcher-reachable code that reads from the connection either reads exactly (io.ReadFull / io.ReadAtLeast / binary.Read / a parser that propagates short reads as errors) or, when it is a plain Read, its byte count is used afterwards", 30)
+	mreach := c.matcherReach()
+	for _, fn := range sortedFuncs(mreach) {
+		if len(fn.Blocks) == 0 || strings.HasPrefix(fname(fn), "layer4.(*Connection)") {
+			continue
+		}
+		for _, rc := range findReadingCalls(fn) {
+			id := calleeID(rc.call)
+			k := fmt.Sprintf("%s#%d", id, rc.ord)
+			name := ""
+			if rc.call.Call.IsInvoke() {
+				name = rc.call.Call.Method.Name()
+			} else if cal := rc.call.Call.StaticCallee(); cal != nil && cal.Signature.Recv() != nil {
+				name = cal.Name() // methods only: encoding/binary.Read is an exact reader
+			}
+			if name != "Read" {
+				r.ok(rule, fname(fn), k, c.ipos(rc.call), "not a plain Read (exact reader / parser)")
+				continue
+			}
+			used := false
+			if ex := extractOf(rc.call, 0); ex != nil && ex.Referrers() != nil {
+				for _, ref := range *ex.Referrers() {
+					if _, dbg := ref.(*ssa.DebugRef); !dbg {
+						used = true
+					}
+				}
+			}
+			r.check(used, rule, fname(fn), k, c.ipos(rc.call), "the count returned by Read is used", "a plain Read on the connection ignores the returned count: when the first segment carries fewer bytes than the buffer, the rest of the buffer is stale/zero and the matcher gives a definite verdict on a proper prefix (io.ReadFull reports that as need-more)")
+		}
 	}
 }
